@@ -49,6 +49,10 @@ func (*prop) WantsRace(tier string) bool { return true }
 
 var alphabet = []string{"a", "z", "A", "Z", "0", "9", "_", "-", ".", " ", "é", "Ü", "ǅ", "\xff"}
 
+// byteAlphabet: letters and a separator next to the bytes of é (c3 a9), € (e2 82 ac), BOM / U+FFFD (ef bb bf / ef bf bd)
+// and an emoji lead byte: every way a sequence can be complete, cut short, or start in the middle
+var byteAlphabet = []string{"a", "B", "_", "\xc3", "\xa9", "\xe2", "\x82", "\xac", "\xef", "\xbb", "\xbf", "\xbd", "\xf0", "\x80"}
+
 type shard struct {
 	Lo, Hi int64
 	L      int
@@ -87,6 +91,14 @@ func (*prop) Cases(seed int64, tier string) []core.Case {
 	}
 	for i := 0; i < nrand; i++ {
 		cs = append(cs, core.MkCase("random", map[string]int{"n": randN}))
+	}
+	// a second exhaustive space over single BYTES that build, break and truncate UTF-8 sequences
+	lb := 4
+	if tier == "thorough" {
+		lb = 5
+	}
+	for _, sh := range (core.StringSpace{Alphabet: byteAlphabet, MaxLen: lb}).Shards(4) {
+		cs = append(cs, core.MkCase("exhaustive-bytes", shard{sh[0], sh[1], lb, false}))
 	}
 	cs = append(cs, core.MkCase("segments", nil))
 	for i := 0; i < 4; i++ {
@@ -298,7 +310,10 @@ func isAlnum(b byte) bool {
 }
 
 var randAlphabet = []string{"a", "b", "z", "A", "Q", "Z", "0", "7", "_", "-", ".", " ", "/", "~", "+", "é", "Ü", "ǅ", "ß", "İ", "ı", "世", "界", "́", "😀", "\x00", "\t", "\n",
-	"\xff", "\xc3", "\xed\xa0\x80", "ID", "Id", "id", "HTTP", "v2", "ſ", "K"}
+	"\xff", "\xc3", "\xed\xa0\x80", "ID", "Id", "id", "HTTP", "v2", "ſ", "K",
+	// every kind of broken UTF-8: lead bytes of each length alone, lone continuation bytes, overlong and truncated
+	// sequences (a BOM / U+FFFD / emoji cut short), next to the intact BOM and U+FFFD themselves
+	"\xc2", "\xe0", "\xe2", "\xef", "\xf0", "\xf4", "\x80", "\xbf", "\xc0\x80", "\xe2\x82", "\xef\xbb", "\xef\xbf", "\xf0\x9f\x98", "\xef\xbb\xbf", "\xef\xbf\xbd"}
 
 var identFragments = []string{"user", "ID", "IDs", "Id", "s", "S", "es", "URL", "URLs", "API", "APIs", "IP", "IPs", "List", "From", "Text", "Is", "Valid", "DNS", "sec", "HTTP", "HTTPS", "Server", "v", "2", "V2", "x", "X",
 	"_", "-", " ", ".", "only", "allowed", "parse", "A", "a", "é", "É", "ß", "Σ", "ς", "JSON", "json", "2fa", "3D", "i18n", "OAuth2", "IPv6", "utf8", "UTF8", "Ph", "D"}
@@ -306,10 +321,13 @@ var identFragments = []string{"user", "ID", "IDs", "Id", "s", "S", "es", "URL", 
 func (p *prop) Run(c core.Case, w *core.Worker) core.Result {
 	res := core.Result{CaseID: c.ID}
 	switch c.Kind {
-	case "exhaustive":
+	case "exhaustive", "exhaustive-bytes":
 		var sh shard
 		c.Decode(&sh)
 		sp := core.StringSpace{Alphabet: alphabet, MaxLen: sh.L}
+		if c.Kind == "exhaustive-bytes" {
+			sp = core.StringSpace{Alphabet: byteAlphabet, MaxLen: sh.L}
+		}
 		inputs := make([]string, 0, sh.Hi-sh.Lo)
 		for i := sh.Lo; i < sh.Hi; i++ {
 			inputs = append(inputs, sp.At(i))
